@@ -222,6 +222,9 @@ def install(E):
 
     E.add(FnSpec('UFB', den=lambda I, a, b=None: ('ufb', a[0], a[1], lin_of(a[2])), origins=lambda I, a: {('list', a[1])}))
 
+    E.add(FnSpec('RAW_CHOICE', den=lambda I, a, b=None: Ite(I.symden(a[1], b), D(I, a[0], b), D(I, a[2], b)),
+                 origins=lambda I, a: {('sym', a[1])} | I.origins(a[0]) | I.origins(a[2])))
+
     # ---- quantifiers ----
     def exists_impl_den(I, a, b=None):
         s, x = a
@@ -348,3 +351,84 @@ BDD_SCOPE = {
     'C07': ['model', 'infer'],
     'C20': ['retain_choice_bottom_up'],
 }
+
+
+# ------------------------------------------------------------------------------------------------
+# structural posts for the node-construction layer (rules E2 / R2), used by C02 and C13
+
+def install_structure(E):
+    NODES = ('cellval', ('fld', ('p', 'self'), '', 'nodes'))
+    SIMP = B + 'simplify'
+
+    def simplify_post(I, params, res):
+        o = post_no_panic(I, res, 'E2')
+        if o: return o
+        a = I.W.rep(params[1].term)
+        r = I.W.rep(res.term)
+        if I.shape(a) == 'C' and I.W.rep(('ch', a, 't')) == I.W.rep(('ch', a, 'f')):
+            exp = I.W.rep(('ch', a, 't'))
+            what = 'a node whose two outcomes are the same diagram is replaced by that diagram'
+        else:
+            exp = a
+            what = 'any other node is returned unchanged'
+            # the equality test must actually have been made for Choice nodes
+            if I.shape(a) == 'C':
+                tested = any(k[0] == 'beq' and set(k[1:]) == {('ch', a, 't'), ('ch', a, 'f')} for k in I.W.used)
+                if not tested:
+                    return [I.E.check_true(I, False, 'E2: simplify never compares the two children of a Choice node')]
+        return [I.E.check_true(I, r == exp, 'E2: simplify: ' + what, {'got': show_key(r), 'expected': show_key(exp)}),
+                I.E.check_valid(I, lambda b: Iff(D(I, r, b), D(I, a, b)), 'S: [[simplify(a)]] == [[a]]')]
+    E.specs[SIMP].post = simplify_post
+
+    def mk_choice_post(I, params, res):
+        o = post_no_panic(I, res, 'E2')
+        if o: return o
+        t, s, f = params[1].term, params[2].term, params[3].term
+        ins = ('app', SIMP, ('app', 'RAW_CHOICE', t, s, f))
+        r = I.W.rep(res.term) if isinstance(res, VBdd) else None
+        out = [I.E.check_true(I, r == ins, 'E2: mk_choice returns simplify(Choice(t,s,f)) - a table hit for it or the node just inserted', {'got': show_key(r) if r else repr(res), 'expected': show_key(ins)})]
+        inserts = [ev for ev in I.events if ev[0] == 'table_insert']
+        gets = [ev for ev in I.events if ev[0] == 'table_get']
+        hit = I.W.dec.get(('opt', ('get', NODES, ins)))
+        out.append(I.E.check_true(I, len(gets) == 1 and gets[0][1] == NODES and gets[0][2] == ins, 'E2: exactly one look-up of the simplified node in the unique table', {'gets': [show_key(g[2]) for g in gets]}))
+        if hit == 'some':
+            out.append(I.E.check_true(I, not inserts, 'E2: no insertion when the node is already in the table', {'inserts': len(inserts)}))
+        else:
+            ok = len(inserts) == 1 and inserts[0][1] == NODES and inserts[0][2] == ins and inserts[0][3] == ins
+            out.append(I.E.check_true(I, ok, 'E2: a missing node is inserted once with key == *value', {'inserts': [(show_key(i[2]), show_key(i[3])) for i in inserts]}))
+        muts = [ev for ev in I.events if ev[0] == 'cell_borrow' and ev[2]]
+        out.append(I.E.check_true(I, len(muts) == 1, 'E3: one mutable borrow of the table per mk_choice', {'n': len(muts)}))
+        out.append(I.E.check_valid(I, lambda b: Iff(D(I, res.term, b), Ite(I.symden(s, b), D(I, t, b), D(I, f, b))), 'S: [[mk_choice(t,s,f)]] == ite(s, [[t]], [[f]])'))
+        return out
+    E.specs[B + 'mk_choice'].post = mk_choice_post
+
+    def mk_const_post(I, params, res):
+        o = post_no_panic(I, res, 'R2')
+        if o: return o
+        v = params[1]
+        dec = I.W.dec.get(('bool', v.t))
+        r = I.W.rep(res.term) if isinstance(res, VBdd) else None
+        return [I.E.check_true(I, dec is not None and r == ('leaf', dec), 'R2: mk_const(v) is the leaf v read back from the table', {'v': dec, 'got': show_key(r) if r else repr(res)})]
+    E.specs[B + 'mk_const'].post = mk_const_post
+
+    def find_post(I, params, res):
+        if isinstance(res, Diverge):
+            return [I.E.check_true(I, True, 'E2: find(r) on a node that is not in the table reports it by panicking (documented precondition)')]
+        r = I.W.rep(res.term) if isinstance(res, VBdd) else None
+        return [I.E.check_true(I, r == I.W.rep(params[1].term), 'E2: find(r) is structurally r', {'got': show_key(r) if r else repr(res)})]
+    E.specs[B + 'find'].post = find_post
+
+    def new_post(I, params, res):
+        o = post_no_panic(I, res, 'E3')
+        if o: return o
+        inserts = sorted(((ev[2], ev[3]) for ev in I.events if ev[0] == 'table_insert'), key=repr)
+        tables = set(ev[1] for ev in I.events if ev[0] == 'table_insert')
+        want = sorted([(('leaf', True), ('leaf', True)), (('leaf', False), ('leaf', False))], key=repr)
+        out = [I.E.check_true(I, inserts == want and len(tables) == 1, 'E3: new() seeds exactly {True -> Rc(True), False -> Rc(False)}', {'inserts': [(show_key(a), show_key(b)) for a, b in inserts]})]
+        ok = isinstance(res, VCons) and res.variant == 'BDDEnv' and len(res.fields) == 1 and isinstance(res.fields[0], VCell) \
+            and I.term_of(I.cells.get(res.fields[0].key)) in tables
+        out.append(I.E.check_true(I, ok, 'E3: the seeded table is the one stored in the new environment', {'result': repr(res)}))
+        return out
+    E.add(FnSpec(B + 'new', post=new_post, result=lambda I, args, loc: VOpaque(('newenv', loc))))
+
+STRUCT_FNS = ['simplify', 'mk_choice', 'mk_const', 'find', 'new', 'clean']
